@@ -8,6 +8,7 @@ RULE = ("P1: TLC enumerates the bounded state graph of spec/Arrays.tla (start sh
         "grid point; design matrices of 1..4 observations and several predictor columns, data that does not fill its "
         "columns rejected; transposition of matrices that are symmetric up to the last bit - mirrored entries one ulp "
         "apart, huge integers two apart, zeros of both signs - through t, t_mut and the slice function, bit for bit; "
+        "clone_from into a matrix of the same element count and another shape gives the source's shape and data; "
         "vectors of different length are neither equal nor close); P3: seeded random programs of 1..40 calls on 1..8 x "
         "1..8 matrices recorded from the real object and validated step by step by TLC against Trace_Arrays. A case "
         "class = (call, shape class, argument class); distinct_nontrivial counts distinct classes exercised.")
